@@ -625,7 +625,7 @@ fn cmd_check(args: &Args) -> i32 {
         "coverage": {
             "evaluations": evaluations,
             "distinct_nontrivial": distinct,
-            "rule": "one evaluation = one simulated run (value -> formatter sink -> serde_json::to_writer -> simulated writer/medium -> crash/flips -> recovery through the planned delivery modes). Enumeration part: for each corpus value every write_str index x {transient,sticky} in 3 shapes, every write-call index x {EINTR, transient, sticky, full, lost, short(1), short(len-1), EINTR+hard} and a crash at every byte of every call x 4 tail-survival choices under 4-5 knob sets, 4 flush faults, every read-call index x {EINTR, hard, EOF, 1-byte chunk} for 3 reader deliveries, every single bit of the stored record; complete per value. Search part: value, knobs, enabled fault kinds and rates, and every stub decision drawn from xoshiro256** seeded by splitmix64(VERIF_SEED, run index). A run is non-trivial when at least one fault was actually delivered while the phase had in-flight state (write fault with >=1 serializer write issued, formatter fault, read fault on a non-empty medium, or a bit flip); distinct = distinct FNV-1a keys over (value spec, knobs, effective schedule of every stub).",
+            "rule": "one evaluation = one simulated run: value(s) in a JSON document shape (bare, array, struct field, internally tagged enum, map keys) -> in-memory baseline (print, re-parse, compare, serde in memory) -> printing into the simulated fmt::Write sink -> serde_json::to_writer[_pretty] through the recording shim [and a BufWriter] into the simulated writer and medium -> crash / lost writes / bit flips -> recovery through the planned delivery modes under their read schedules. Enumeration part: for each corpus value every write_str index x {transient, sticky, re-enter} in 3 caller shapes, every write-call index x {EINTR, transient, sticky, full, lost, re-enter, short(1), short(len-1), EINTR+hard} and a crash at every byte of every call x 4 tail-survival choices under 5-6 knob sets, 4 flush faults, every read-call index x {EINTR, hard, EOF, 1-byte chunk, re-enter} for 3 reader deliveries, every single bit of the stored record; complete per value. Search part: value (one run in eight a sibling of the previous run's value), knobs, enabled fault kinds and rates, and every stub decision drawn from xoshiro256** seeded by splitmix64(VERIF_SEED, run index); chunks of 512 runs execute on a thread of their own so that the earlier runs of a chunk are an exact, replayable history. A run is non-trivial when at least one fault or re-entrant operation was actually delivered while the phase had in-flight state (write fault with >=1 serializer write issued, formatter fault, read fault on a non-empty medium, a bit flip, a re-entrant operation); distinct = distinct FNV-1a keys over (value spec, knobs, effective schedule of every stub).",
             "samples": samples,
             "exhaustive": false,
             "enumeration": {
@@ -640,6 +640,35 @@ fn cmd_check(args: &Args) -> i32 {
                 "wall_s": search_s,
                 "runs_per_hour": ((ff_runs + runs) as f64 / search_s.max(1e-9) * 3600.0) as u64,
                 "seeds_per_hour": ((ff_runs + runs) as f64 / search_s.max(1e-9) * 3600.0) as u64,
+            },
+            "faults_injected": {
+                "writer": {
+                    "short_write": stats.get(C::w_short), "eintr": stats.get(C::w_eintr),
+                    "transient_error": stats.get(C::w_hard_transient), "sticky_error": stats.get(C::w_hard_sticky),
+                    "device_full": stats.get(C::w_full), "lost_write": stats.get(C::w_lost),
+                    "crash_inside_write": stats.get(C::w_crash), "flush_error": stats.get(C::flush_err),
+                    "crash_inside_flush": stats.get(C::flush_crash), "reentrant_serialize": stats.get(C::w_reenter),
+                },
+                "formatter_sink": {
+                    "transient_error": stats.get(C::p_fail_transient), "sticky_error": stats.get(C::p_fail_sticky),
+                    "reentrant_print": stats.get(C::p_reenter),
+                },
+                "reader": {
+                    "eintr": stats.get(C::r_eintr), "hard_error": stats.get(C::r_hard),
+                    "premature_eof": stats.get(C::r_eof), "reentrant_deserialize": stats.get(C::r_reenter),
+                },
+                "storage": {
+                    "bit_flips": stats.get(C::flips_applied), "crashes": stats.get(C::wr_crashed),
+                    "torn_survivors": stats.get(C::survivors_torn), "media_with_lost_writes": stats.get(C::wr_corrupted_by_medium),
+                },
+                "outcomes": {
+                    "acknowledged": stats.get(C::wr_acknowledged), "failed_honestly": stats.get(C::wr_failed_honestly),
+                    "intact_records_read_back_and_compared": stats.get(C::r1_durability_checked),
+                    "torn_records_rejected": stats.get(C::r3_torn_rejected),
+                    "flipped_records_rejected": stats.get(C::flip_runs_rejected),
+                    "flipped_records_read_as_another_value_consistently": stats.get(C::flip_runs_other_value),
+                    "nested_operations_checked": stats.get(C::nested_ops_ok),
+                },
             },
             "simulated_time_s": 0,
             "simulated_time_note": "the code under test has no clock, timer or deadline; there is no simulated time to cover",
@@ -658,8 +687,8 @@ fn cmd_check(args: &Args) -> i32 {
                     "serde, serde_json to_writer/to_writer_pretty/from_reader/from_slice/from_str/from_value, serde::de::value deserializers",
                     "std::io::Write::write_all, std::io::BufWriter, std::io::BufReader, core::fmt::write"
                 ],
-                "stubs": ["SimWriter (io::Write)", "SimReader (io::Read)", "SimFmtSink (fmt::Write)", "Disk (durable prefix + volatile tail, crash, lost write, bit flips)", "process crash/restart"],
-                "absent": ["threads", "network", "clock"]
+                "stubs": ["SimWriter (io::Write)", "SimReader (io::Read)", "SimFmtSink (fmt::Write)", "Disk (durable prefix + volatile tail, crash, lost write, bit flips)", "process crash/restart", "re-entrant caller (a sink/reader that itself uses the crate)"],
+                "absent": ["scheduler for tasks (the crate has no threads, tasks or shared state; worker threads only parallelise independent chunks)", "network", "clock"]
             },
             "known_findings_announced": announced,
             "known_finding_hits": known_hits,
